@@ -32,7 +32,8 @@
 (*             loaded, flags = native frame's flags & All.                 *)
 (*   IMgmtFin  the Deploy / Update / Destroy notification, then the native *)
 (*             frame returns.                                              *)
-(*   IPut      System.Storage.GetContext (ReadStates) + Put (WriteStates)  *)
+(*   IPut      System.Storage.GetContext (ReadStates; the executing        *)
+(*             contract must still exist) + Put (WriteStates)              *)
 (*   INotify   System.Runtime.Notify (AllowNotify)                         *)
 (*                                                                         *)
 (* Every step records in last.bad the clauses of FlagsDyn it falsifies;    *)
@@ -118,7 +119,8 @@ ICallMgmt(op, req) == IEnter("c", MgmtHash, op, MgmtAr(op), req)
 IReturn == /\ Len(stack) > 1 /\ Top(stack).hash # MgmtHash
            /\ DoReturn /\ last' = [k |-> "ret", bad |-> {}] /\ SameDao
 
-IPutOK == {R, W} \subseteq Top(stack).fl
+\* (GetContext looks the executing contract up in the table: a contract that destroyed itself has no storage any more)
+IPutOK == {R, W} \subseteq Top(stack).fl /\ IsLive(dao, Top(stack).hash)
 INotifyOK == N \in Top(stack).fl
 IEffect(e) == /\ InContract /\ Top(stack).kind # "r"
               /\ IF e = "w" THEN IPutOK ELSE INotifyOK
